@@ -1,0 +1,12 @@
+//go:build verif
+
+// Contracts for package utils, read by /verif/govc. Comments only; compiled only with tag "verif".
+package utils
+
+// The response helpers write only to the response object owned by fiber (assumed frame conditions).
+//@ func SetResponseHeaders
+//@   frame none
+//@ func SetMetaHeaders
+//@   frame none
+//@ func StreamResponseBody
+//@   frame none
